@@ -34,11 +34,12 @@ theorem settled_deliver {val : Val} {voters : List Id} {n : Nat} {s : Spec.State
     (hty : Deliverable m.typ) (h0 : m.term ≠ 0) (hctx : m.typ = .heartbeatResp → m.context = none)
     (h : (Raft.step (fuel + 1) m).run r = .ok (e, r')) : Settled r' := by
   rcases Nat.lt_trichotomy m.term r.term with hlt | heq | hgt
-  · have := sim_lower_term hinv h0 hlt hty h
-    subst this
-    exact hs
+  · rcases lower_term_cases h0 hlt hty h with rfl | ⟨_, _, rfl⟩
+    · exact hs
+    · exact hs
   · exact settled_same hinv hs hty heq hctx h
-  · obtain ⟨r1, hbf, h1⟩ := raise_term_run hinv hgt hty h
+  · rcases raise_term_run hinv hgt hty h with rfl | ⟨r1, hbf, h1⟩
+    · exact hs
     obtain ⟨s1, _, _, _, hinv1, ht1, _⟩ := sim_raise_term' hinv hgt hbf
     exact settled_same hinv1 (settled_becomeFollower hs hbf) hty ht1.symm hctx h1
 
